@@ -41,9 +41,8 @@ theorem Ctx0.mv [AddCommMonoid R] [Mul R] [Neg R]
           V.get J = (tensordotBlockwise A B (freeAxes A.ndim xa) xa xb (freeAxes B.ndim xb)).elem K J)
       ∧ (∀ s ∈ (tensordotBlockwise A B (freeAxes A.ndim xa) xa xb (freeAxes B.ndim xb)).sectors,
           s ∈ c.sectors)
-      ∧ (∀ K V, alookup c.blocks K = some V →
-          Arr.blockShape? (permuted A.indices (freeAxes A.ndim xa)
-            ++ permuted B.indices (freeAxes B.ndim xb)) K = some V.shape) := by
+      ∧ List.Forall₂ SizeLe c.indices (permuted A.indices (freeAxes A.ndim xa)
+            ++ permuted B.indices (freeAxes B.ndim xb)) := by
   have hneKb : xb ≠ [] := by
     intro e; have := h.len; rw [e] at this; exact hneK (List.eq_nil_of_length_eq_zero this)
   have hpA := pair_of_free h.nA h.rA hneK hneL
@@ -244,20 +243,10 @@ theorem Ctx0.mv [AddCommMonoid R] [Mul R] [Neg R]
       (by simpa using segOf_stored h.vaA hokA gA0 hsa S0 hcL)
     rw [hR]
     simpa [permuted] using h2
-  · -- shapes
-    intro K V hl
-    have hs := Arr.shapesOk_of_validB hcv (K, V) (alookup_mem hl)
-    simp only at hs
-    rw [hci] at hs
-    rw [hR]
-    have : List.Forall₂ SizeLe
-        ((if ((freeAxes A.ndim xa).length != 1) = true then
-          ((dropTo (FuseP.ixM A [freeAxes A.ndim xa, xa] 0) S0).sub.map (·.1)).getD []
-        else [dropTo (FuseP.ixM A [freeAxes A.ndim xa, xa] 0) S0]))
-        (permuted A.indices (freeAxes A.ndim xa) ++ permuted B.indices []) := by
-      have e : permuted B.indices [] = [] := rfl
-      rw [e, List.append_nil]; exact hleg
-    exact blockShape?_weaken this K _ hs
+  · -- index tables
+    rw [hci, hR]
+    have e : permuted B.indices [] = [] := rfl
+    rw [e, List.append_nil]; exact hleg
 
 end TdotP
 end SymmModel
